@@ -132,7 +132,8 @@ MACHINE_FOR_ENC_FAIL = [False]      # set by gen/c06.py (its driver c06_run know
 def flatten_for_model(case, impl):
     trig, roller, pre, a0, ops = case
     if uses_enc_machine(case):
-        return case
+        # ([11, chunks, 1]: the same for the model - the harness makes the FLUSH fail (full disk) instead of the encoder)
+        return [trig, roller, pre, a0, [[11, o[1]] if o[0] == 11 else o for o in ops]]
     ops = effective_ops(ops)
     if pre[0] == 2:
         pre = [1, pre[1]]              # a symlinked log path: for the model just a pre-existing file
@@ -546,6 +547,9 @@ def describe(case):
         if o[0] == 12:
             return "append %d bytes in %d chunk(s), roller set to rotate and THEN report failure" % (len(rec_of(o[1])), len(o[1]))
         if o[0] == 11:
+            if len(o) > 2 and o[2]:
+                return ("append %d bytes in %d chunk(s) while the file cannot grow (RLIMIT_FSIZE = its size): the flush fails"
+                        % (len(rec_of(o[1])), len(o[1])))
             return "append %d bytes in %d chunk(s), the encoder then FAILS" % (len(rec_of(o[1])), len(o[1]))
         if o[0] == 10:
             return ("append %d bytes in %d chunk(s); its %s appends a %d-byte record to a second rolling appender "
